@@ -8,6 +8,12 @@
 namespace {
 using CfgEq = vp::MCfg<vp::Tracked, vp::ObsAlloc<vp::Tracked, 8>, 8>;   // always-equal observing allocator
 using CfgNe = vp::MCfg<vp::Tracked, vp::ObsAlloc<vp::Tracked, 0>, 0>;   // stateful, non-propagating: slots may hold unequal allocators
+// asymmetric element types: nothrow move assignment with a throwing move constructor, and the reverse (a rollback strategy chosen from the wrong trait)
+using CfgNeNA = vp::MCfg<vp::TrackedNA, vp::ObsAlloc<vp::TrackedNA, 0>, 0>;
+using CfgNeNC = vp::MCfg<vp::TrackedNC, vp::ObsAlloc<vp::TrackedNC, 0>, 0>;
+using CfgEqNA = vp::MCfg<vp::TrackedNA, vp::ObsAlloc<vp::TrackedNA, 8>, 8>;
+using CfgEqNC = vp::MCfg<vp::TrackedNC, vp::ObsAlloc<vp::TrackedNC, 8>, 8>;
+template<class T> char const* tname() { return std::is_same_v<T, vp::TrackedNA> ? "Tracked(nothrow move-assign)" : std::is_same_v<T, vp::TrackedNC> ? "Tracked(nothrow move-ctor)" : "Tracked"; }
 
 // Recorded known findings (known_findings.txt, C09): (operation kind, event kind) pairs at which no fault is injected, so that the search goes on
 // behind them.  Lifted in known mode (VP_KNOWN=1) where the committed minimal histories show that each finding is still present.
@@ -30,7 +36,7 @@ template<class Cfg, int D> void run_d(vp::Input const& in, vp::Ctx& ctx) {
 		M.enabled = vp::kAllOps & ~(vp::bit(vp::O_DECAY));
 		M.run(in);
 		E = vp::obs().events;
-		ctx.desc << "Tracked D=" << D << (Cfg::flags == 0 ? " unequal-allocators ids=" : " equal-allocators") ; if(Cfg::flags == 0) { ctx.desc << (ids & 15U); } ctx.desc << dry.desc.s << " || events=" << E;
+		ctx.desc << tname<typename Cfg::T>() << " D=" << D << (Cfg::flags == 0 ? " unequal-allocators ids=" : " equal-allocators") ; if(Cfg::flags == 0) { ctx.desc << (ids & 15U); } ctx.desc << dry.desc.s << " || events=" << E;
 	}
 	if(E == 0) { return; }
 	// injection points: all when few (or in the exhaustive build), else a spread sample
@@ -70,6 +76,14 @@ struct Prop {
 	static constexpr char const* id = "C09";
 	static constexpr int H = 3, R = 8, MAXOPS = 6;
 	static void run(vp::Input const& in, vp::Ctx& ctx) {
+		// the top two bits of header byte 2 select an asymmetric element type (values 0 and 1: the ordinary Tracked, every special member may throw)
+		unsigned const flavor = in.head(2) >> 6U;
+		if(flavor >= 2U) {
+			bool const ne = (in.head(1) % 5) >= 3;
+			if(flavor == 2U) { if(ne) { run_d<CfgNeNA, 2>(in, ctx); ctx.label("unequal_allocators"); } else { run_d<CfgEqNA, 2>(in, ctx); } ctx.label("T_nothrow_move_assign"); }
+			else             { if(ne) { run_d<CfgNeNC, 1>(in, ctx); ctx.label("unequal_allocators"); } else { run_d<CfgEqNC, 2>(in, ctx); } ctx.label("T_nothrow_move_ctor"); }
+			return;
+		}
 		switch(in.head(1) % 5) {
 			case 0: run_d<CfgEq, 1>(in, ctx); break;
 			case 1: run_d<CfgEq, 2>(in, ctx); break;
